@@ -116,9 +116,9 @@ func Run(c *core.Ctx, replay string) (*core.Result, error) {
 	}
 	res.AddTLC(t)
 
-	nProg, K := 6, 12
+	nProg, K := 6, 40
 	if c.Thorough() {
-		nProg, K = 50, 60
+		nProg, K = 50, 80
 	}
 	var progs []*absprog.Prog
 	seed := c.Seed
